@@ -122,6 +122,7 @@ type Oci struct {
 	Cdi  Strs `json:"cdi"`
 	Mord Strs `json:"mord"`
 	Eord Strs `json:"eord"` // process environment as listed (determinism checks)
+	Devc Strs `json:"devc"` // device cgroup allow rules "type|major|minor", in order
 }
 
 // Adjust is one adjustment in wire shape.
